@@ -171,6 +171,21 @@ def run(ctx):
                             ctx.alarm('correspondence', 'slice_rgbd_targets: depth %r in planes %s, model says %s (positions %s)'
                                       % (float(flat2[idx]), got, want, ps32))
                             break
+    # ---- the targets of a float32 image and depth map do not depend on global settings of torch (default dtype float64, grad mode off): masks still cover
+    # the image, plane targets still sum to it.  Plane counts whose spacing 1/(n-1) is not a power of two included.
+    from ..lib import settings as ST
+    for n_ in (2, 3, 4, 6, 7, 11):
+        g = torch.Generator().manual_seed(ctx.seed + n_)
+        img_ = torch.rand(3, 12, 13, generator=g, dtype=torch.float32)
+        dep_ = (torch.randint(0, 256, (12, 13), generator=g).to(torch.float32) / 255.)
+
+        def targets(scheme, n_=n_, img_=img_, dep_=dep_):
+            ob = LW.multiplane_loss(img_.clone(), dep_.clone(), number_of_planes=n_, target_blur_size=5, scheme=scheme)
+            t, f, d = ob.get_targets()
+            return [t, f, d, ob.masks.sum(dim=0)]
+        for scheme in ('none', 'defocus'):
+            ST.differential(ctx, 'C16 multiplane_loss targets, %d planes, scheme %s (float32 image and depth)' % (n_, scheme), lambda scheme=scheme: targets(scheme),
+                            rtol=1e-5, atol=1e-6, cls={'fn': 'multiplane_loss', 'planes': n_}, must_return=True)
     from .genslicers import check_generated_slicers
     check_generated_slicers(ctx)           # the definitions regenerated from the source (Generated/Slicers.lean) vs the real code
     from .gendefocus import check_generated_defocus; check_generated_defocus(ctx)   # Generated/Defocus.lean vs generate_2d_gaussian / add_defocus_blur
